@@ -243,14 +243,15 @@ def widen(a, b, lm):
 
 
 class Event:
-    __slots__ = ("kind", "inst", "block", "chain", "detail", "span", "sites")
+    __slots__ = ("kind", "inst", "block", "chain", "detail", "span", "sites", "via")
 
     def __init__(self, kind, inst, block, chain, detail, span, sites=()):
         self.kind, self.inst, self.block, self.chain, self.detail, self.span = kind, inst, block, chain, detail, span
         self.sites = sites      # call sites (caller key, block) from the root down to the event
+        self.via = ()           # ordinals of the CFG predecessors through which a panicking block was entered
 
     def key(self):
-        return (self.kind, self.inst, self.block, self.chain, self.detail)
+        return (self.kind, self.inst, self.block, self.sites, self.detail)
 
     def __repr__(self):
         return "Event(%s @%s bb%s %s)" % (self.kind, self.inst, self.block, self.detail)
@@ -309,10 +310,16 @@ class Interp:
         return lm
 
     # ------------------------------------------------------------------ events
-    def event(self, kind, inst, block, detail, span=None):
+    def event(self, kind, inst, block, detail, span=None, fid=None):
         chain = tuple(self.call_stack)
         e = Event(kind, inst["key"] if inst else None, block, chain, detail, span, tuple(self.site_stack))
+        if fid is not None and inst is not None:
+            fl = getattr(self, "flow_preds", {}).get(fid, {}).get(block, ())
+            e.via = tuple(sorted(static_preds(inst).get(block, []).index(p) for p in fl if p in static_preds(inst).get(block, [])))
         self.events.setdefault(e.key(), e)
+        old = self.events[e.key()]
+        if fid is not None and getattr(e, "via", None):
+            old.via = tuple(sorted(set(getattr(old, "via", ()) or ()) | set(e.via)))
 
     # ------------------------------------------------------------------ types
     def ty(self, ix):
@@ -1045,6 +1052,9 @@ class Interp:
         in_states = {0: st0}
         visits = {}
         work = [0]
+        self.flow_preds = getattr(self, "flow_preds", {})
+        flow = {}
+        self.flow_preds[fid] = flow
         ret_val = None
         ret_state = None
         order = _rpo_index(blocks)
@@ -1059,6 +1069,8 @@ class Interp:
             s = dict(in_states[bi])
             outs = self.exec_block(inst, fid, bi, s)
             for succ, s2 in outs:
+                if succ != "return":
+                    flow.setdefault(succ, set()).add(bi)
                 if succ == "return":
                     rv = s2.get((fid, 0))
                     if rv is None:
@@ -1090,6 +1102,7 @@ class Interp:
         self.site_stack.pop()
         self.depth -= 1
         self.frames.pop(fid, None)
+        self.flow_preds.pop(fid, None)
         if ret_state is None:
             return None, None       # diverges
         out = {k: v for k, v in ret_state.items() if not (k[0] == fid or (k[0] == "w" and k[1] == fid))}
@@ -1374,6 +1387,19 @@ class DiscrIn:
 
 DIVERGE = object()
 NOT_HANDLED = object()
+
+
+def static_preds(inst):
+    c = inst.get("_preds")
+    if c is None:
+        c = {}
+        for bi, b in enumerate(inst["blocks"]):
+            for sc in successors(b["term"]):
+                c.setdefault(sc, []).append(bi)
+        for k in c:
+            c[k] = sorted(set(c[k]))
+        inst["_preds"] = c
+    return c
 
 
 def _op_uses(op, out):
